@@ -182,6 +182,10 @@ type Plan struct {
 	Env        []string
 	HangIsViol bool // a worker that does not finish is classified from its goroutine dump
 	Extra      string
+	// Recycle > 0: a worker process hands over to a fresh one after this many cases (exit status 78; the
+	// parent continues behind the last case). For phases in which every case leaves memory behind that the
+	// process cannot get back (asynchronous s2 writers of Snapshot: two goroutines and ~2 MB each).
+	Recycle int
 }
 
 type Property struct {
@@ -413,6 +417,13 @@ func (d *Driver) runWorker(phase int, pl Plan, slice, start, restart int) (*Work
 			res = &WorkerResult{}
 		}
 		return res, false, -1
+	}
+	if ee, ok := err.(*exec.ExitError); ok && ee.ExitCode() == 78 && pl.Recycle > 0 && lastIdx >= 0 {
+		// planned hand-over: results so far are in the result file, a fresh process continues behind the last case
+		if res == nil {
+			res = &WorkerResult{}
+		}
+		return res, true, lastIdx + 1
 	}
 	if ee, ok := err.(*exec.ExitError); ok && ee.ExitCode() == 77 {
 		// the worker reported a round that never completed (verdict already in its result file) and gave up
@@ -789,6 +800,7 @@ func workerMain(args []string) int {
 		p.Init(w, phase)
 	}
 	lastFlush := time.Now()
+	ran := 0
 	for idx := 0; idx < pl.Cases; idx++ {
 		if idx%nsl != slice || idx < start {
 			continue
@@ -796,6 +808,11 @@ func workerMain(args []string) int {
 		wd := time.AfterFunc(caseWatchdog(), func() { caseHung(w, idx) })
 		p.Run(w, phase, idx)
 		wd.Stop()
+		ran++
+		if pl.Recycle > 0 && ran >= pl.Recycle && idx+nsl < pl.Cases {
+			w.flush(false)
+			os.Exit(78) // hand over to a fresh process
+		}
 		if time.Since(lastFlush) > 2*time.Second {
 			w.flush(false)
 			lastFlush = time.Now()
